@@ -374,6 +374,15 @@ pub fn probe(args: &[String]) -> Result<(), Box<dyn std::error::Error>> {
             let (r, _) = d.rpc("eth_getBlockByNumber", json!(["0x1", false]));
             println!("block 1 transactions: {}", r.unwrap_or(Value::Null)["transactions"]);
         }
+        "genesis-high" => {
+            let mut d = Drv::new(NetCfg::signet(5));
+            let (r, ss) = d.rpc("brc20_initialise", json!([Hx::zero32().hex0x(), 1_700_000_000u64, 5]));
+            println!("brc20_initialise(height 5) on an empty database -> {:?}; executions {}", r, ss.len());
+            let (r, _) = d.rpc("brc20_commitToDatabase", json!([]));
+            println!("commit afterwards -> {:?}", r);
+            let (r, _) = d.rpc("eth_getCode", json!([format!("0x{}", sim::CONTROLLER)]));
+            println!("controller code present: {:?}", r.map(|v| v.as_str().map(|s| s.len() > 2)));
+        }
         _ => println!("unknown probe"),
     }
     Ok(())
